@@ -287,6 +287,12 @@ class SpanQuery(Query):
     def field(self):
         return None
 
+    def estimate_size(self, ixreader):
+        return self.q.estimate_size(ixreader)
+
+    def estimate_min_size(self, ixreader):
+        return self.q.estimate_min_size(ixreader)
+
     def needs_spans(self):
         return True
 
